@@ -19,7 +19,13 @@ RULE = ("one case = one workload (1-3 producers, set_data/add_metadata/save on 1
         "long histories run under token schedules that leave hundreds to thousands of requests pending when close() is "
         "called (timer never fires / flusher inside a storage call while the burst arrives / one big batch flushed midway / "
         "timer fires a few times), input_distribution shows pending-at-close:* and largest-flush-batch:* as measured on the "
-        "implementation's trace; non-trivial = at least two requests; distinct = distinct (workload, schedule)")
+        "implementation's trace; values: unique ints in the schedule-oriented streams, and a value-shape stream (one "
+        "deterministic probe + random workloads) whose values are None, booleans / ints / floats that compare equal "
+        "(0, False, 0.0, -0.0; 1, True, 1.0), containers that compare equal ([0] / [False], {a: 1} / {a: True}), empty "
+        "str / list / dict / tuple, the same value written again - stored values are compared with their types, in the "
+        "direct predicate and in Coq (val := pyval); input_distribution shows value:*, same-value-written-again, "
+        "overwritten-by-==-value-of-other-type, None-written-to-new-key; "
+        "non-trivial = at least two requests; distinct = distinct (workload, schedule)")
 EXHAUSTIVE = {"quick": True, "thorough": True}
 ASSUMPTIONS = [
     "atomic-step reduction: lock-protected regions are atomic and steps on disjoint state commute (gated by the ast check "
@@ -32,9 +38,16 @@ ASSUMPTIONS = [
     "wrapped storage failures are Exceptions (a BaseException would end the flusher thread)",
     "requests are issued through set_data / add_metadata / save_recording (Recording.__setitem__ bypasses the closed "
     "check of the AsyncRecording and is outside the modelled request alphabet)",
-    "data values passed to set_data are immutable atoms in the model (the in-memory recording keeps references in both "
-    "worlds; a caller mutating a value object between the request and the flush is outside the modelled domain); "
-    "metadata dicts may be changed by the caller after the call (AddMetaMut) - covered since /repo ba7c02c"]
+    "values are never mutated by the caller after the call: the model's values are immutable trees (pyval: None, bool, "
+    "int, float, str, list, tuple, dict - with their types), the in-memory recording keeps references in both "
+    "worlds; a caller mutating a value object between the request and the flush is outside the modelled domain; "
+    "metadata dicts may be changed by the caller after the call (AddMetaMut) - covered since /repo ba7c02c",
+    "value domain exercised: the 27 shaped values of SHAPED (None, False/True, 0/1/2, 0.0/-0.0/1.0/2.5, '', 'a', '1', "
+    "empty and one-element list / tuple / dict, [[]], [None], {a: None}) and unique ints; NaN (not equal to itself), "
+    "sets, objects with a custom __eq__ and str-vs-bytes are not drawn",
+    "a write that repeats what the recording already holds counts as a write: the predicate reports lost-op when it "
+    "does not reach the wrapped cassette (the property says every write is applied exactly once), even though the "
+    "stored recording would be the same"]
 TRUSTED = ["cooperative scheduler of the driver (one OS thread per logical thread, exactly one running; Thread/Lock/Event "
            "of the module under test substituted as module attributes; sys.settrace line stepping)",
            "spy subclass of the real InMemoryTapeCassette / MemoryRecording as wrapped storage",
@@ -471,7 +484,7 @@ def shape_cases(rng, quick):
     for label, work in shape_probes():
         for flushed in (False, True):
             out.append(mk(work, dict(kind="tokens", tokens=shape_tokens(work, flushed)), "value-shapes-" + label))
-    for _ in range(200 if quick else 2500):
+    for _ in range(200 if quick else 1500):
         w = rand_shape_work(rng, rng.randrange(1, 4), 6, rng.randrange(1, 3))
         out.append(mk(w, dict(kind="tokens", tokens=rand_tokens(rng, w)), "value-shapes-random"))
     return out
@@ -479,11 +492,15 @@ def shape_cases(rng, quick):
 
 def shape_walks(rng, quick):
     out = []
-    for j in range(4 if quick else 40):
+    for j in range(4 if quick else 24):
         w = rand_shape_work(rng, 1 + j % 3, 5, 1 + j % 2)
         gran = "line" if j % 2 else "atomic"
         out.append(mk(w, dict(kind="random", gran=gran, seed=rng.randrange(10**6), runs=30 if quick else 120,
                               p=rng.choice([0.05, 0.15, 0.3])), "value-shapes-random-" + gran))
+    if not quick:       # free-running real threads: direct predicate only, must reproduce in every repetition
+        for j in range(6):
+            w = rand_shape_work(rng, 1 + j % 3, 6, 1 + j % 2, after_save=0.0)
+            out.append(mk(w, dict(kind="threads", runs=3, delay=[0.0, 0.003][j % 2], switch=1e-5), "value-shapes-real-threads"))
     return out
 
 
@@ -1032,7 +1049,7 @@ def nontrivial(case):
 
 MANIFEST = dict(
     design_ref='6/C12',
-    text='Coq theorems over ALL reachable states of a producer/buffer/flusher transition system (any number of producers, any workloads of set_data/add_metadata/save with failing storage calls, any interleaving, any timer firing pattern): invariant applied++batch++buffer = enqueue order; when the flusher is done every accepted request was applied exactly once in enqueue order and the wrapped cassette and every outcome equal the synchronous run (sync_apply), also when callers keep changing a metadata dict after passing it (legacy defect F12 refuted with a witness, repaired by ba7c02c); failure does not block; producers blocked only inside the two-statement swap; termination within |buffer|+|batch|+8 flusher steps after close. Model tied to /repo on every run by driving the REAL AsyncRecordOnlyTapeCassette/AsyncRecording under deterministic schedules (cooperative scheduler over substituted Thread/Lock/Event, re-entrant spy cassette, sys.settrace line stepping): exhaustive token interleavings of small workloads, bounded-preemption exhaustive exploration at atomic and source-line granularity, seeded random walks, and long histories (10^2..10^4 requests, 1-3 producers) under schedules that leave hundreds to thousands of requests pending at close() or in one flush batch (timer never fires, flusher inside a storage call while the burst arrives, one big flush midway, rare timer); Coq replays every implementation trace (each step must be enabled) and compares applied order, outcomes, stored recordings. ast gate: every buffer access under the lock. Direct predicate on the implementation: exactly-once, per-producer and real-time order, contents == synchronous twin, no storage call on caller threads, callers never blocked by a storage call, no deadlock; thorough adds free-running real threads (also bursts of thousands of requests with a flush interval longer than the session).',
+    text='Coq theorems over ALL reachable states of a producer/buffer/flusher transition system (any number of producers, any workloads of set_data/add_metadata/save with failing storage calls, any interleaving, any timer firing pattern): invariant applied++batch++buffer = enqueue order; when the flusher is done every accepted request was applied exactly once in enqueue order and the wrapped cassette and every outcome equal the synchronous run (sync_apply), also when callers keep changing a metadata dict after passing it (legacy defect F12 refuted with a witness, repaired by ba7c02c); failure does not block; producers blocked only inside the two-statement swap; termination within |buffer|+|batch|+8 flusher steps after close. Model tied to /repo on every run by driving the REAL AsyncRecordOnlyTapeCassette/AsyncRecording under deterministic schedules (cooperative scheduler over substituted Thread/Lock/Event, re-entrant spy cassette, sys.settrace line stepping): exhaustive token interleavings of small workloads, bounded-preemption exhaustive exploration at atomic and source-line granularity, seeded random walks, and long histories (10^2..10^4 requests, 1-3 producers) under schedules that leave hundreds to thousands of requests pending at close() or in one flush batch (timer never fires, flusher inside a storage call while the burst arrives, one big flush midway, rare timer), and value-shape workloads (recorded values are Python values with their types, val := pyval: None, False/0/0.0/-0.0, True/1/1.0, ==-equal containers, empty containers, the same value written again - every ordered overwrite pair and every first write, unflushed and flushed in between, plus random shaped workloads); Coq replays every implementation trace (each step must be enabled) and compares applied order, outcomes, stored recordings. ast gate: every buffer access under the lock. Direct predicate on the implementation: exactly-once, per-producer and real-time order, contents == synchronous twin compared type-exactly (True is not 1, None is not "absent"), no storage call on caller threads, callers never blocked by a storage call, no deadlock; thorough adds free-running real threads (also bursts of thousands of requests with a flush interval longer than the session).',
     note='Trusted: Coq kernel + vm_compute; hand-written model; atomic-step reduction (argued, gated by the ast lock check); the cooperative scheduler and trace projection of the driver; join timeout expiry, daemon-thread death at interpreter exit and true parallel lock behaviour are runtime (partial).',
     technique='Coq proof (invariant over a step relation, refinement to a synchronous fold) + trace-replay correspondence by vm_compute + systematic schedule exploration of the real code',
 )
